@@ -116,3 +116,20 @@ class Check(object):
         print("%s: %d obligations, %d discharged, %d known finding(s), %d violation(s) [%s, %.1fs]" % (
             self.pid, n, n - len(bad), len(knownhits), len(seen), self.tier, time.time() - self.t0))
         return 1 if seen else 0
+
+
+
+class Suffixed(object):
+    """the same rules on another configuration: instance names carry the configuration"""
+
+    def __init__(self, chk, suffix):
+        self._chk, self._suffix = chk, suffix
+
+    def ob(self, rule, instance, *a, **k):
+        return self._chk.ob(rule, instance + self._suffix, *a, **k)
+
+    def floor(self, rule, what, *a, **k):
+        return self._chk.floor(rule, what + self._suffix, *a, **k)
+
+    def __getattr__(self, name):
+        return getattr(self._chk, name)
